@@ -448,7 +448,8 @@ def run(pm, ctx):
             ctx.ok("C20-b", site, repr(res))
         elif not evs:
             tops = [t for t in I.top_log if t[1] == fn]
-            if is_top(res) or tops or (isinstance(res, Tup) and any(is_top(x) for x in res.items)):
+            if is_top(res) or tops or (isinstance(res, Tup) and any(is_top(x) for x in res.items)) or "?" in repr(res):
+                # (an axis of unknown extent - e.g. produced by reshape(-1) - is lack of precision of the abstract value, not a wrong shape)
                 ctx.undecided_site("C20-b", site, f"abstract result {res!r}; unknown: {norm_src(tops[0][2])[:60] if tops else ''}")
             else:
                 ctx.violation("C20-b", u.relpath, fn, "return", f"the returned value has axes {res!r}, not the documented shape", line=u.func(fn).lineno, site=site)
@@ -569,7 +570,25 @@ def run(pm, ctx):
     # multivariate_student_t shape check
     f2 = u.func("multivariate_student_t")
     cfg2 = CFG(f2)
-    r2 = [s for s in cfg2.nodes if isinstance(s, ast.If) and s.body and isinstance(s.body[-1], ast.Raise) and "scale.shape[0] != d or scale.shape[1] != d" in norm_src(s.test)]
+    def _square_check(t):
+        """scale.shape[0] != d or scale.shape[1] != d  /  scale.shape != (d, d)  (either operand order)"""
+        from ..pm import canon_node
+        t = canon_node(t)
+        if isinstance(t, ast.Compare) and len(t.ops) == 1 and isinstance(t.ops[0], ast.NotEq):
+            pair = {str(norm_src(t.left)), str(norm_src(t.comparators[0]))}
+            if pair == {"scale.shape", "(d, d)"}:
+                return True
+        if isinstance(t, ast.BoolOp) and isinstance(t.op, ast.Or) and len(t.values) == 2:
+            seen = set()
+            for v in t.values:
+                if isinstance(v, ast.Compare) and len(v.ops) == 1 and isinstance(v.ops[0], ast.NotEq):
+                    pair = {str(norm_src(v.left)), str(norm_src(v.comparators[0]))}
+                    for k in ("scale.shape[0]", "scale.shape[1]", "len(scale)"):
+                        if pair == {k, "d"}:
+                            seen.add("0" if k != "scale.shape[1]" else "1")
+            return seen == {"0", "1"}
+        return False
+    r2 = [s for s in cfg2.nodes if isinstance(s, ast.If) and s.body and isinstance(s.body[-1], ast.Raise) and _square_check(s.test)]
     d2 = next((s for s in cfg2.nodes if any(isinstance(c, ast.Call) and isinstance(c.func, ast.Attribute) and c.func.attr in DRAWS for e in cfg2.header_exprs(s) for c in ast.walk(e))), None)
     if r2 and d2 is not None and cfg2.dominates(r2[0], d2):
         ctx.ok("C20-e", "multivariate_student_t: rejects inconsistent location/scale shapes")
